@@ -80,11 +80,13 @@ class Ctx:
         wall = time.time() - self.t0
         out_lines = []
         rc = 0
-        os.makedirs(os.path.join(VERIF, "replays", prop), exist_ok=True)
+        real_repo = os.path.realpath(REPO) == "/repo"
+        rep_root = os.path.join(VERIF, "replays") if real_repo else os.path.join(SCRATCH_ROOT, "bobv-mutant-replays")
+        os.makedirs(os.path.join(rep_root, prop), exist_ok=True)
 
         def write_replay(obj, tag):
             h = hashlib.sha1(json.dumps(obj, sort_keys=True, default=repr).encode()).hexdigest()[:12]
-            p = os.path.join(VERIF, "replays", prop, "%s_%s.json" % (tag, h))
+            p = os.path.join(rep_root, prop, "%s_%s.json" % (tag, h))
             with open(p, "w") as f:
                 json.dump(obj, f, indent=1, sort_keys=True, default=repr)
             return p
